@@ -91,29 +91,56 @@ pub fn dump_flag_rule(cx: &Cx, rep: &mut Report) {
     rep.unanalysable(&f.qual, &uns);
     let dump_field = cx.ix.structs.get("DeriveEntry").and_then(|s| s.fields.iter().find(|(n, t)| crate::index::ty_str(t) == "bool" && n.contains("dump")).map(|(n, _)| n.clone()));
     let Some(dump_field) = dump_field else { rep.fail("unanalysable", "DeriveEntry", "dump-field", "no bool dump field", "item_type.rs", json!({})); return };
-    let mut ok_some = false;
-    let mut ok_none = false;
+    // semantic comparison: under every path, the flag's value as a function of the list-level flag L (an atom over one
+    // `[*]`) and the trait's own flag I (an atom over two `[*]`, only present when the trait has arguments) is L || I
+    let mut covered: std::collections::BTreeSet<(bool, bool, bool)> = Default::default(); // (has item args, L, I)
+    let mut wrong: Vec<String> = Vec::new();
     for (st, fl) in &outs {
         let Flow::Val(v) = fl else { continue };
-        let has_item_args = st.cond.iter().find(|(a, _)| a.contains("items[*].args is Some")).map(|(_, b)| *b);
+        let has_item_args = st.cond.iter().find(|(a, _)| a.contains("[*].args is Some") || (a.matches("[*]").count() == 2 && a.ends_with(" is Some"))).map(|(_, b)| *b);
+        let Some(has_item_args) = has_item_args else { continue };
         v.any(&|x| {
             if let Val::Struct { name, fields } = x {
                 if name == "DeriveEntry" {
                     if let Some((_, dv)) = fields.iter().find(|(n, _)| *n == dump_field) {
-                        let s = dv.short();
-                        let list = s.contains("args_list[*].dump");
-                        let item = s.contains("items[*].args.Some.args.dump");
-                        match has_item_args { Some(true) => if list && item && s.contains("Or") { DF.with(|c| c.borrow_mut().0 = true); }, Some(false) => if list && !item { DF.with(|c| c.borrow_mut().1 = true); }, None => {} }
+                        let f = match dv { Val::Bool(true) => F::T, Val::Bool(false) => F::Fl, Val::Atom(f) => f.clone(), other => { DFW.with(|c| c.borrow_mut().push(format!("not a boolean formula: {}", other.short()))); return false; } };
+                        fn atoms(f: &F, out: &mut Vec<String>) { match f { F::A(a) => out.push(a.clone()), F::Not(x) => atoms(x, out), F::And(v) | F::Or(v) => { for x in v { atoms(x, out); } } _ => {} } }
+                        let mut names: Vec<String> = st.cond.keys().cloned().collect();
+                        atoms(&f, &mut names);
+                        let is_flag = |a: &String| !a.contains(" is ") && !a.starts_with("ok(") && !a.starts_with('?');
+                        let l_atom = names.iter().find(|a| is_flag(a) && a.matches("[*]").count() == 1).cloned();
+                        let i_atom = names.iter().find(|a| is_flag(a) && a.matches("[*]").count() == 2).cloned();
+                        for l in [false, true] {
+                            for i in [false, true] {
+                                if !has_item_args && i { continue; }
+                                let mut asg = st.cond.clone();
+                                let mut consistent = true;
+                                if let Some(a) = &l_atom { if let Some(b) = st.cond.get(a) { if *b != l { consistent = false; } } asg.insert(a.clone(), l); }
+                                if let Some(a) = &i_atom { if let Some(b) = st.cond.get(a) { if *b != i { consistent = false; } } asg.insert(a.clone(), i); }
+                                if !consistent { continue; }
+                                // an absent atom means the value cannot depend on that flag: both of its values are covered by this path
+                                let got = f.simp(&asg);
+                                let want = l || i;
+                                match got {
+                                    F::T | F::Fl => { if (got == F::T) == want { DFC.with(|c| { c.borrow_mut().insert((has_item_args, l, i)); }); } else { DFW.with(|c| c.borrow_mut().push(format!("list-level dump = {l}, own dump = {i}: entry dump = {}", got == F::T))); } }
+                                    other => DFW.with(|c| c.borrow_mut().push(format!("depends on something else: {other:?}"))),
+                                }
+                            }
+                        }
                     }
                 }
             }
             false
         });
     }
-    DF.with(|c| { let (a, b) = *c.borrow(); ok_some = a; ok_none = b; *c.borrow_mut() = (false, false); });
-    rep.check(ok_some && ok_none, "DM-dump-flag", &f.qual, "list-or-item", "an entry's dump flag is not `list-level dump OR the trait's own dump`", &site(&f), json!({"with item args": ok_some, "without": ok_none}));
+    DFC.with(|c| covered = std::mem::take(&mut *c.borrow_mut()));
+    DFW.with(|c| wrong = std::mem::take(&mut *c.borrow_mut()));
+    wrong.sort(); wrong.dedup();
+    let ok_some = [(true, false, false), (true, false, true), (true, true, false), (true, true, true)].iter().all(|k| covered.contains(k));
+    let ok_none = [(false, false, false), (false, true, false)].iter().all(|k| covered.contains(k));
+    rep.check(ok_some && ok_none && wrong.is_empty(), "DM-dump-flag", &f.qual, "list-or-item", "an entry's dump flag is not `list-level dump OR the trait's own dump`", &site(&f), json!({"with item args": ok_some, "without": ok_none, "wrong": wrong, "paths": outs.iter().map(|(st, fl)| format!("[{}] {}", cond_str(&st.cond), match fl { Flow::Val(v) => v.short().chars().take(600).collect::<String>(), _ => "?".into() })).collect::<Vec<_>>()}));
 }
-thread_local! { static DF: std::cell::RefCell<(bool, bool)> = Default::default(); }
+thread_local! { static DFC: std::cell::RefCell<std::collections::BTreeSet<(bool, bool, bool)>> = Default::default(); static DFW: std::cell::RefCell<Vec<String>> = Default::default(); }
 
 // =============================================================================================== C15
 pub fn c15(cx: &Cx) -> i32 {
@@ -122,7 +149,7 @@ pub fn c15(cx: &Cx) -> i32 {
     // ES-shared-core: both entry points reach the same two cores
     let cg = crate::roles::CallGraph::build(ix);
     let eps = crate::roles::entry_points(ix);
-    let cores: std::collections::BTreeSet<String> = cx.roles.iter().map(|r| r.core.qual.clone()).collect();
+    let cores: std::collections::BTreeSet<String> = cx.roles.iter().map(|r| crate::roles::entry_core(ix, &r.core, &r.item_kind).qual.clone()).collect();
     rep.check(cores.len() == 2, "ES-shared-core", "cores", "two-cores", &format!("expected one struct core and one enum core, found {cores:?}"), "item_type.rs", json!({}));
     for e in &eps {
         let reach = cg.reachable(&[e.qual.clone()]);
@@ -368,7 +395,7 @@ pub fn c14(cx: &Cx) -> i32 {
         }
     }
     // cores and impl builder take the item by shared reference (type-enforced immutability)
-    for q in cx.roles.iter().map(|r| r.core.qual.clone()).collect::<std::collections::BTreeSet<_>>() {
+    for q in cx.roles.iter().flat_map(|r| [r.core.qual.clone(), crate::roles::entry_core(ix, &r.core, &r.item_kind).qual.clone()]).collect::<std::collections::BTreeSet<_>>() {
         if let Some(f) = ix.get_fn(&q) { rep.check(!sig_text(&f).contains("&mutItem"), "MR-mutation-confinement", &q, "shared-ref", "a core takes the item by mutable reference", &site(&f), json!({})); }
     }
     // ---- ES-entry-emit: `build` emits the item first, then the generated tokens or the compile error
